@@ -1,6 +1,7 @@
 package main
 
 import (
+	"bytes"
 	"context"
 	"crypto"
 	"crypto/rsa"
@@ -312,6 +313,44 @@ func c06Run(x *runCtx, ctx context.Context, w *lab.World, st *lab.MemState, k la
 	if impl == "panic" {
 		x.r.Violate(rep.Violation{Kind: "panic", Check: "C06.no-panic", Signature: "C06.panic:" + s.what, Input: input, Impl: fmt.Sprint(err), PropertyFails: true})
 		return
+	}
+	// the accepted time-to-live is the policy's value (when a policy is set), and the reply reports it
+	if res == "ok" {
+		wantTTL := int64(-1)
+		var n uint32
+		switch {
+		case s.policy == "half" && s.what == "honest":
+			wantTTL = 3600 / 2
+		case strings.HasPrefix(s.policy, "const:"):
+			fmt.Sscanf(s.policy, "const:%d", &n)
+			wantTTL = int64(n)
+		}
+		if wantTTL >= 0 && int64(ttl) != wantTTL {
+			x.r.Violate(rep.Violation{Kind: "oracle", Check: "C06.expiry", Signature: "C06.reply-ttl-is-not-the-policy-value:" + s.what, Input: input,
+				Impl: fmt.Sprintf("reply says %d s, the policy granted %d s", ttl, wantTTL), PropertyFails: true})
+		}
+	}
+	// registered although a bound part of the voucher differs from the genuine voucher (and it is not that voucher cut back
+	// to an earlier owner): whatever the library's own chain walk says about it
+	if res == "ok" && strings.HasPrefix(s.what, "voucher-") && strings.HasSuffix(s.what, "-consistent") {
+		var os fdo.VerifOwnerSign
+		if err := cbor.Unmarshal(sent, &os); err == nil {
+			if cur, err := st.Voucher(ctx, guid); err == nil {
+				// the device certificate chain is not among the conditions the property lists for TO0 (the rendezvous server
+				// does not check it against the header's hash): compare everything else
+				sv, cv := os.To0d.Val.Voucher, *cur
+				sv.CertChain, cv.CertChain = nil, nil
+				sentEnc, _ := cbor.Marshal(&sv)
+				curEnc, _ := cbor.Marshal(&cv)
+				ps, ok1 := boundProjection(sentEnc)
+				pc, ok2 := boundProjection(curEnc)
+				shorter := len(os.To0d.Val.Voucher.Entries) < len(cur.Entries)
+				if ok1 && ok2 && !bytes.Equal(ps, pc) && !shorter {
+					x.r.Violate(rep.Violation{Kind: "oracle", Check: "C06.only-current-owner", Signature: "C06.registered-although-voucher-altered:" + s.what,
+						Input: input, Impl: impl, Detail: "a bound part of the presented voucher differs from the device's voucher", PropertyFails: true})
+				}
+			}
+		}
 	}
 	// effects: exactly one SetRVBlob on accept with expiry = now + ttl, none on reject
 	if res == "ok" {
